@@ -400,10 +400,10 @@ static void gs_family_zlib(int thorough, int (*mine)(uint64_t), uint64_t *idx, g
 {
 	static const int lv[] = { 0, 1, 6, 9 }, st[] = { Z_DEFAULT_STRATEGY, Z_FILTERED, Z_HUFFMAN_ONLY, Z_RLE, Z_FIXED }, wbs[] = { 9, 15, 12 }, ml[] = { 1, 8, 9 };
 	static const int lens[] = { 0, 1, 9, 258, 300, 600, 4096, 8193, 70000 };
-	static const int pats[] = { PAT_TEXT, PAT_XS, PAT_ZERO, PAT_P3, PAT_P258, PAT_RAMP };
+	static const int pats[] = { PAT_TEXT, PAT_XS, PAT_ZERO, PAT_LOG, PAT_P3, PAT_P258, PAT_RAMP };
 	uint8_t *in = malloc(70000);
 	for (unsigned li = 0; li < sizeof lens / sizeof lens[0]; li++)
-		for (unsigned pi = 0; pi < (thorough ? 6 : 4); pi++)
+		for (unsigned pi = 0; pi < (thorough ? 7 : 4); pi++)
 			for (int l = 0; l < 4; l++)
 				for (int s = 0; s < 5; s++)
 					for (int w = 0; w < (thorough ? 3 : 2); w++)
@@ -443,14 +443,14 @@ static void gs_family_zlib(int thorough, int (*mine)(uint64_t), uint64_t *idx, g
 static void gs_family_isal(int thorough, int (*mine)(uint64_t), uint64_t *idx, gs_cb cb, void *ctx)
 {
 	static const int lens[] = { 0, 1, 9, 258, 300, 600, 4096, 8193, 70000 };
-	static const int pats[] = { PAT_TEXT, PAT_XS, PAT_ZERO, PAT_P3, PAT_P258 };
+	static const int pats[] = { PAT_LOG, PAT_XS, PAT_ZERO, PAT_TEXT, PAT_P3, PAT_P258 };
 	static uint8_t *in, *lb;
 	if (!in) {
 		in = malloc(70000);
 		lb = malloc(ISAL_DEF_LVL3_DEFAULT);
 	}
 	for (unsigned li = 0; li < sizeof lens / sizeof lens[0]; li++)
-		for (unsigned pi = 0; pi < (thorough ? 5 : 3); pi++)
+		for (unsigned pi = 0; pi < (thorough ? 6 : 3); pi++)
 			for (int level = 0; level <= 3; level++)
 				for (int var = 0; var < 3; var++) {
 					if (level && var == 1)
